@@ -11,20 +11,23 @@ RULE = ("deterministic virtual-clock event loop; a real BaseClient (recording se
         "1..3 concurrent waitforevent calls are started at t=0; at every point of a half-integer grid one of {nothing, non-matching "
         "event, matching event, non-match then match in one receive batch, two matching events in one batch} is injected through "
         "process_message; timeout in {none, 2.25, 4.25, 7.25} (never tying with the grid), polling in {off, delay 1/interval 1, delay "
-        "2/interval 3}, condition kind {expect, initial, check} x event kind {value, state}. The complete grid is enumerated (quick: 5 "
+        "2/interval 3}, condition kind {expect, initial, check} x event kind {value, state, any = no element filter and default event type, where the "
+        "non-matching events are re-definitions raising value, state and definition events}. The complete grid is enumerated (quick: 5 "
         "points, thorough: 7 points). Oracle: the wait returns the FIRST matching event object (identity, from an always-registered "
         "spy) at that event's virtual instant, or raises at exactly the timeout instant - never both, never neither; getProperties "
         "polls happen exactly at delay + k*interval while waiting and never after completion; no callback stays registered. "
         "non-trivial = a run in which at least one event was injected; distinct = hash(pattern, timeout, polling, condition)")
 ASSUMPTIONS = ["exact ties between an event and the timeout instant are excluded by off-grid constants"]
 REQUIRED_EVENTS = ["runs", "waits_completed_by_event", "waits_timed_out", "waits_still_pending_without_timeout", "polls_observed",
-                   "batches_with_two_matches"]
+                   "batches_with_two_matches", "redefinitions_injected"]
 EXHAUSTIVE_NOTE = "every assignment of the five slot kinds to every grid point x timeouts x polling x conditions (quick: 5 grid points; thorough: 7)"
 
 SLOTS = ["-", "x", "m", "xm", "mm"]
 TIMEOUTS = [None, 2.25, 4.25, 7.25]
 POLLING = [None, (1.0, 1.0), (2.0, 3.0)]
-CONDS = [("expect", "value"), ("initial", "value"), ("check", "value"), ("expect", "state"), ("initial", "state"), ("check", "state")]
+CONDS = [("expect", "value"), ("initial", "value"), ("check", "value"), ("expect", "state"), ("initial", "state"), ("check", "state"),
+         # "any": no element filter and the default event type, so that value, state AND definition events reach the condition
+         ("expect", "any"), ("initial", "any"), ("check", "any")]
 HORIZON = 9.25
 
 
@@ -34,13 +37,31 @@ class Feeder:
     def __init__(self, cond, kind):
         self.cond, self.kind = cond, kind
         self.n = 0
-        self.value = "INIT"
-        self.state = "Idle"
+        # what the property is defined with; for ("initial", "any") value and state equal the wait's `initial`
+        self.def_value, self.def_state = ("Ok", "Ok") if (cond, kind) == ("initial", "any") else ("INIT", "Idle")
+        self.value = self.def_value
+        self.state = self.def_state
+
+    def definition(self):
+        import indi.message as M
+        from indi.message import def_parts
+        return M.DefTextVector(device="D", name="P", state=self.def_state, perm="rw",
+                               children=(def_parts.DefText(name="E", value=self.def_value),))
 
     def make(self, match):
         import indi.message as M
         from indi.message import one_parts
         self.n += 1
+        if self.kind == "any":
+            if not match:
+                # a re-definition (what a poll answer looks like): raises value, state and definition events, none matching
+                self.value, self.state = self.def_value, self.def_state
+                return self.definition()
+            new = {"expect": "GO", "initial": f"V{self.n}", "check": f"GOOD{self.n}"}[self.cond]
+            if new == self.value:
+                return None
+            self.value = new
+            return M.SetTextVector(device="D", name="P", state=self.state, children=(one_parts.OneText(name="E", value=new),))
         if self.kind == "value":
             if self.cond == "expect":
                 new = "GO" if match else f"X{self.n}"
@@ -70,7 +91,14 @@ class Feeder:
 def wait_kwargs(cond, kind, timeout, polling):
     from indi.client import events as E
     kw = {"device": "D", "vector": "P", "timeout": timeout}
-    if kind == "value":
+    if kind == "any":
+        if cond == "expect":
+            kw["expect"] = "GO"
+        elif cond == "initial":
+            kw["initial"] = "Ok"
+        else:
+            kw["check"] = lambda ev: str(getattr(ev, "new_value", "")).startswith("GOOD")
+    elif kind == "value":
         kw["element"] = "E"
         kw["event_type"] = E.ValueUpdate
         if cond == "expect":
@@ -97,6 +125,14 @@ def wait_kwargs(cond, kind, timeout, polling):
 
 def is_match(cond, kind, ev):
     name = type(ev).__name__
+    if kind == "any":
+        if name == "ValueUpdate":
+            v = ev.new_value
+            return (cond == "expect" and v == "GO") or (cond == "initial" and v != "Ok") or (cond == "check" and str(v).startswith("GOOD"))
+        if name == "StateUpdate":
+            s_ = ev.new_state
+            return (cond == "expect" and s_ == "GO") or (cond == "initial" and s_ != "Ok")
+        return False        # a definition event carries no value: it can never satisfy a condition
     if kind == "value":
         if name != "ValueUpdate":
             return False
@@ -131,15 +167,15 @@ def run_one(ctx, case):
     client.onevent(callback=lambda ev: spy.append((loop.time(), ev)))
     results = []
     injected = [0]
+    redefs = [0]
     two_match_batches = [0]
 
     async def main():
-        client.process_message(M.DefTextVector(device="D", name="P", state="Idle", perm="rw",
-                                               children=(def_parts.DefText(name="E", value="INIT"),)))
+        feeders = [Feeder(c, k) for c, k in conds]
+        client.process_message(feeders[0].definition())
         client.sent.clear()
         del spy[:]
         base_callbacks = len(client.callbacks)
-        feeders = [Feeder(c, k) for c, k in conds]
         # all waits watch the same property; the FIRST condition drives the injected pattern
         feeder = feeders[0]
 
@@ -169,6 +205,8 @@ def run_one(ctx, case):
                     msg = feeder.make(not match) if False else None
                 if msg is not None:
                     injected[0] += 1
+                    if type(msg).__name__.startswith("Def"):
+                        redefs[0] += 1
                     client.process_message(msg)
 
         for gi, slot in enumerate(pattern):
@@ -198,6 +236,7 @@ def run_one(ctx, case):
             loop.close()
     ctx.count("runs")
     ctx.count("batches_with_two_matches", two_match_batches[0])
+    ctx.count("redefinitions_injected", redefs[0])
     # ---- oracle
     for rec in results:
         cond, kind = rec["cond"], rec["kind"]
